@@ -43,6 +43,8 @@ BOUND = {
     "quick": "seq: all sequences of length <=5 over 6 symbols; cat: L(3,3) x catalogue x every site x blanks 0..1; voc: one-row product (reduced pairing), two-row type x type x 5 contexts",
     "thorough": "seq: length <=6; cat: L(4,3) x catalogue x every site x blanks 0..2; voc: full one-row product, two-row with one deviating slot, three-row malformed x representative",
 }
+# as-built additions to the bound (kept next to BOUND so that the evidence reports them)
+BOUND = {k: v + "; plus: " + 'catalogue entries for entity save_to errors and for errors that depend on earlier rows; survey / choices column headers equal to internal keys; osm sheet variants' for k, v in BOUND.items()}
 
 NAMES = ["a", "b", "d", "e", "f", "g"]
 CHOICES = [{"list_name": "c", "name": "x", "label": "X"}, {"list_name": "c", "name": "y", "label": "Y"}]
